@@ -20,6 +20,7 @@ a label must arrive at the label's height.  This module turns that into a compos
 -/
 import ChibiVerif.Lemmas.C20Calls
 import ChibiVerif.Model.C20Flow
+import ChibiVerif.Lemmas.C20Labels
 
 namespace ChibiVerif.Lemmas.C20
 open ChibiVerif ChibiVerif.Codegen ChibiVerif.Effect ChibiVerif.Asm ChibiVerif.Ast ChibiVerif.C20Scope
@@ -46,10 +47,8 @@ theorem H.add_mk_zero (a : H) : a + ⟨0, 0⟩ = a := by harith
 
 /-! ### skeletons: append lemmas -/
 
-theorem labelNames_append (a b : List Step) : labelNames (a ++ b) = labelNames a ++ labelNames b := by
-  induction a with
-  | nil => rfl
-  | cons s r ih => cases s <;> simp [labelNames, ih]
+theorem labelNames_append (a b : List Step) : labelNames (a ++ b) = labelNames a ++ labelNames b :=
+  labelNames_append' a b
 
 /-- the `seen` table of `renameLocals` after a skeleton -/
 def seenAfter : List Step → List (String × Nat) → List (String × Nat)
@@ -208,10 +207,7 @@ theorem FlowR_closed {A : List (String × H)} {o o' : H} {ss : List Step} {d : H
 
 /-! ### straight-line code -/
 
-theorem labelNames_deltas (ds : List H) : labelNames (ds.map Step.delta) = [] := by
-  induction ds with
-  | nil => rfl
-  | cons d r ih => simpa [labelNames] using ih
+theorem labelNames_deltas (ds : List H) : labelNames (ds.map Step.delta) = [] := labelNames_deltas' ds
 
 theorem scanRel_deltas_none (h : Labelling) (ds : List H) :
     scanRel h (ds.map Step.delta) none = .ok none := by
@@ -246,43 +242,54 @@ theorem FlowR_of_delta {ls : List Line} {d : H} (o : H) (h : delta ls = some d) 
 
 /-! ### the code predicate of closed code, and the judgment for code generators -/
 
-/-- closed code with labels: one height per label, effect (r, x) -/
-def FlowP (ls : List Line) (r x : Int) : Prop := FlowR [] ⟨0, 0⟩ (ls.flatMap classify) [] ⟨r, x⟩
+/-- closed code with labels, printed while `count()` went from `lo` to `hi`: one height per label,
+    effect (r, x); its counter labels are pairwise distinct and numbered in [lo, hi) -/
+def FlowP (lo hi : Nat) (ls : List Line) (r x : Int) : Prop :=
+  FlowR [] ⟨0, 0⟩ (ls.flatMap classify) [] ⟨r, x⟩ ∧ LabsR (ls.flatMap classify) [] lo hi
+
+theorem labelNames_of_delta {ls : List Line} {d : H} (h : delta ls = some d) :
+    labelNames (ls.flatMap classify) = [] := by
+  obtain ⟨ds, e1, _⟩ := flatMap_classify_of_delta ls d h
+  rw [e1, labelNames_deltas]
 
 instance : CodePred FlowP where
-  lines h := FlowR_of_delta _ h
+  lines h hl := ⟨FlowR_of_delta _ h, LabsR_noLabels (labelNames_of_delta h) hl⟩
   append := by
-    intro a b r1 x1 r2 x2 h1 h2
+    intro lo mid hi a b r1 x1 r2 x2 h1 h2
     unfold FlowP at *
     rw [List.flatMap_append]
-    have := FlowR_append (o := ⟨0, 0⟩) (o' := ⟨-r1, -x1⟩) h1 (FlowR_closed h2) (by harith)
-    exact this.conv (by simp [H.add_def]) (fun l r hm => (List.not_mem_nil hm).elim) (fun l r hm => (List.not_mem_nil hm).elim)
+    have := FlowR_append (o := ⟨0, 0⟩) (o' := ⟨-r1, -x1⟩) h1.1 (FlowR_closed h2.1) (by harith)
+    exact ⟨this.conv (by simp [H.add_def]) (fun l r hm => (List.not_mem_nil hm).elim)
+      (fun l r hm => (List.not_mem_nil hm).elim), LabsR_append h1.2 h2.2⟩
 
 /-- the judgment for a code generator: whenever `m` succeeds, its code is a fragment with assumptions
     `A` and guarantees `G` relative to the region base (fragment base + (ro, xo)), effect (r, x), and
-    `depth` has changed by `dd` -/
-def SemF (A : List (String × H)) (ro xo : Int) (m : M α) (G : List (String × H)) (r x dd : Int) : Prop :=
+    `depth` has changed by `dd`; `own` are the counter labels of the enclosing arm it defines -/
+def SemF (own : List String) (A : List (String × H)) (ro xo : Int) (m : M α) (G : List (String × H))
+    (r x dd : Int) : Prop :=
   ∀ s a s' ls, m s = .ok (a, s', ls) →
-    FlowR A ⟨ro, xo⟩ (ls.flatMap classify) G ⟨r, x⟩ ∧ s'.depth = s.depth + dd
+    FlowR A ⟨ro, xo⟩ (ls.flatMap classify) G ⟨r, x⟩ ∧ s'.depth = s.depth + dd ∧
+      LabsR (ls.flatMap classify) own s.count s'.count
 
 theorem SemF_of_SemP {A : List (String × H)} {ro xo : Int} {m : M α} {r x dd : Int}
-    (h : SemP FlowP m r x dd) : SemF A ro xo m [] r x dd := by
+    (h : SemP FlowP m r x dd) : SemF [] A ro xo m [] r x dd := by
   unfold SemP at h
   intro s a s' ls hm
   obtain ⟨h1, h2⟩ := h s a s' ls hm
-  exact ⟨FlowR_closed h1, h2⟩
+  exact ⟨FlowR_closed h1.1, h2, h1.2⟩
 
 theorem SemP_of_SemF {ro xo : Int} {m : M α} {r x dd : Int}
-    (h : SemF [] ro xo m [] r x dd) : SemP FlowP m r x dd := by
+    (h : SemF [] [] ro xo m [] r x dd) : SemP FlowP m r x dd := by
   unfold SemP
   intro s a s' ls hm
-  obtain ⟨h1, h2⟩ := h s a s' ls hm
-  exact ⟨FlowR_closed h1, h2⟩
+  obtain ⟨h1, h2, h3⟩ := h s a s' ls hm
+  exact ⟨⟨FlowR_closed h1, h3⟩, h2⟩
 
-theorem SemF_bind' {A : List (String × H)} {ro xo : Int} {m : M α} {f : α → M β} {G1 G2 : List (String × H)}
-    {r1 x1 d1 r2 x2 d2 : Int} (h1 : SemF A ro xo m G1 r1 x1 d1)
-    (h2 : ∀ a s s' l, m s = .ok (a, s', l) → SemF A (ro - r1) (xo - x1) (f a) G2 r2 x2 d2) :
-    SemF A ro xo (m >>= f) (G1 ++ G2) (r1 + r2) (x1 + x2) (d1 + d2) := by
+theorem SemF_bind' {own1 own2 : List String} {A : List (String × H)} {ro xo : Int} {m : M α} {f : α → M β}
+    {G1 G2 : List (String × H)}
+    {r1 x1 d1 r2 x2 d2 : Int} (h1 : SemF own1 A ro xo m G1 r1 x1 d1)
+    (h2 : ∀ a s s' l, m s = .ok (a, s', l) → SemF own2 A (ro - r1) (xo - x1) (f a) G2 r2 x2 d2) :
+    SemF (own1 ++ own2) A ro xo (m >>= f) (G1 ++ G2) (r1 + r2) (x1 + x2) (d1 + d2) := by
   intro s b s' ls h
   simp only [bind, M.bind] at h
   split at h
@@ -293,34 +300,54 @@ theorem SemF_bind' {A : List (String × H)} {ro xo : Int} {m : M α} {f : α →
     · rename_i b' s2 l2 hf
       simp only [Except.ok.injEq, Prod.mk.injEq] at h
       obtain ⟨rfl, rfl, rfl⟩ := h
-      obtain ⟨e1, e2⟩ := h1 _ _ _ _ hm
-      obtain ⟨e3, e4⟩ := h2 a _ _ _ hm _ _ _ _ hf
-      refine ⟨?_, by simp [e4, e2, Int.add_assoc]⟩
-      rw [List.flatMap_append]
-      exact (FlowR_append e1 e3 (by harith)).conv (by simp [H.add_def]) (fun l r hm => Or.inr hm)
-        (fun l r hm => hm)
+      obtain ⟨e1, e2, e5⟩ := h1 _ _ _ _ hm
+      obtain ⟨e3, e4, e6⟩ := h2 a _ _ _ hm _ _ _ _ hf
+      refine ⟨?_, by simp [e4, e2, Int.add_assoc], ?_⟩
+      · rw [List.flatMap_append]
+        exact (FlowR_append e1 e3 (by harith)).conv (by simp [H.add_def]) (fun l r hm => Or.inr hm)
+          (fun l r hm => hm)
+      · rw [List.flatMap_append]
+        exact LabsR_append e5 e6
 
-theorem SemF_bind {A : List (String × H)} {ro xo : Int} {m : M α} {f : α → M β} {G1 G2 : List (String × H)}
-    {r1 x1 d1 r2 x2 d2 : Int} (h1 : SemF A ro xo m G1 r1 x1 d1)
-    (h2 : ∀ a, SemF A (ro - r1) (xo - x1) (f a) G2 r2 x2 d2) :
-    SemF A ro xo (m >>= f) (G1 ++ G2) (r1 + r2) (x1 + x2) (d1 + d2) :=
+theorem SemF_bind {own1 own2 : List String} {A : List (String × H)} {ro xo : Int} {m : M α} {f : α → M β}
+    {G1 G2 : List (String × H)}
+    {r1 x1 d1 r2 x2 d2 : Int} (h1 : SemF own1 A ro xo m G1 r1 x1 d1)
+    (h2 : ∀ a, SemF own2 A (ro - r1) (xo - x1) (f a) G2 r2 x2 d2) :
+    SemF (own1 ++ own2) A ro xo (m >>= f) (G1 ++ G2) (r1 + r2) (x1 + x2) (d1 + d2) :=
   SemF_bind' h1 (fun a _ _ _ _ => h2 a)
 
 /-- change the presentation of a judgment: arithmetic, discharge of internal labels, weakening -/
-theorem SemF.conv {A A' : List (String × H)} {ro xo ro' xo' : Int} {m : M α} {G G' : List (String × H)}
-    {r x dd r' x' dd' : Int} (h : SemF A ro xo m G r x dd)
+theorem SemF.conv {own own' : List String} {A A' : List (String × H)} {ro xo ro' xo' : Int} {m : M α}
+    {G G' : List (String × H)}
+    {r x dd r' x' dd' : Int} (h : SemF own A ro xo m G r x dd)
     (hro : ro = ro') (hxo : xo = xo') (hr : r = r') (hx : x = x') (hd : dd = dd')
     (hA : ∀ l v, (l, v) ∈ A → (l, v) ∈ G ∨ (l, v) ∈ A')
-    (hG : ∀ l v, (l, v) ∈ G' → (l, v) ∈ G) : SemF A' ro' xo' m G' r' x' dd' := by
-  subst hro hxo hr hx hd
+    (hG : ∀ l v, (l, v) ∈ G' → (l, v) ∈ G) (hown : own = own' := by rfl) :
+    SemF own' A' ro' xo' m G' r' x' dd' := by
+  subst hro hxo hr hx hd hown
   intro s a s' ls hm
-  obtain ⟨h1, h2⟩ := h s a s' ls hm
-  exact ⟨h1.conv rfl hA hG, h2⟩
+  obtain ⟨h1, h2, h3⟩ := h s a s' ls hm
+  exact ⟨h1.conv rfl hA hG, h2, h3⟩
 
-theorem SemF_fail {A : List (String × H)} {ro xo : Int} {G : List (String × H)} {r x dd : Int} (msg : String) :
-    SemF A ro xo (fail msg : M α) G r x dd := by
+theorem SemF_fail {own : List String} {A : List (String × H)} {ro xo : Int} {G : List (String × H)}
+    {r x dd : Int} (msg : String) :
+    SemF own A ro xo (fail msg : M α) G r x dd := by
   intro s a s' ls h; cases h
 
+/-- an arm that draws its label number from `count()`: its own labels `own k` join the fresh ones -/
+theorem SemF_count {A : List (String × H)} {ro xo : Int} {f : Nat → M β} {G : List (String × H)}
+    {r x dd : Int} {own : Nat → List String} (h : ∀ k, SemF (own k) A ro xo (f k) G r x dd)
+    (hn : ∀ k, (own k).Nodup) (ho : ∀ k l, l ∈ own k → ∃ t, t ∈ ctrTags ∧ l = ctr t k) :
+    SemF [] A ro xo (count >>= f) G r x dd := by
+  intro s b s' ls hm
+  simp only [bind, M.bind, count] at hm
+  split at hm
+  · cases hm
+  · rename_i b' s2 l2 hf
+    simp only [List.nil_append, Except.ok.injEq, Prod.mk.injEq] at hm
+    obtain ⟨rfl, rfl, rfl⟩ := hm
+    obtain ⟨h1, h2, h3⟩ := h s.count _ _ _ _ hf
+    exact ⟨h1, by simpa using h2, LabsR_close h3 (hn _) (ho _)⟩
 
 /-! ### atoms: jumps and labels -/
 
@@ -449,38 +476,57 @@ theorem classify_jbe {t l : String} (h : jumpTarget ⟨"jbe", [.s t]⟩ = some l
   rfl
 
 /-- a line whose skeleton is known -/
-theorem SemF_emit {A : List (String × H)} {ro xo : Int} {l : Line} {G : List (String × H)} {r x : Int}
-    (h : FlowR A ⟨ro, xo⟩ (classify l) G ⟨r, x⟩) : SemF A ro xo (emit l) G r x 0 := by
+theorem SemF_emit {own : List String} {A : List (String × H)} {ro xo : Int} {l : Line} {G : List (String × H)}
+    {r x : Int}
+    (h : FlowR A ⟨ro, xo⟩ (classify l) G ⟨r, x⟩) (hl : ∀ n, LabsR (classify l) own n n) :
+    SemF own A ro xo (emit l) G r x 0 := by
   intro s a s' ls hm
   simp only [emit, Except.ok.injEq, Prod.mk.injEq] at hm
   obtain ⟨_, rfl, rfl⟩ := hm
-  exact ⟨by simpa using h, by simp⟩
+  exact ⟨by simpa using h, by simp, by simpa using hl s.count⟩
 
 /-- `je l` / `jne l` / `jbe l`, `l` assumed at the current height -/
 theorem SemF_je {A : List (String × H)} {ro xo : Int} {l : String} {v : H} (hs : startsDot l = true)
-    (hm : (l, v) ∈ A) (hv : v.rsp = -ro ∧ v.x87 = -xo) : SemF A ro xo (emit (ins1 "je" (.s l))) [] 0 0 0 := by
-  refine SemF_emit ?_
-  rw [classify_je (jumpTarget_of_startsDot _ hs)]
-  exact FlowR_cond (localRef_of_startsDot hs) hm (by harith)
+    (hm : (l, v) ∈ A) (hv : v.rsp = -ro ∧ v.x87 = -xo) : SemF [] A ro xo (emit (ins1 "je" (.s l))) [] 0 0 0 := by
+  refine SemF_emit ?_ ?_
+  · rw [classify_je (jumpTarget_of_startsDot _ hs)]
+    exact FlowR_cond (localRef_of_startsDot hs) hm (by harith)
+  · rw [classify_je (jumpTarget_of_startsDot _ hs)]
+    exact fun n => LabsR_noLabels rfl (Nat.le_refl n)
 
 theorem SemF_jne {A : List (String × H)} {ro xo : Int} {l : String} {v : H} (hs : startsDot l = true)
-    (hm : (l, v) ∈ A) (hv : v.rsp = -ro ∧ v.x87 = -xo) : SemF A ro xo (emit (ins1 "jne" (.s l))) [] 0 0 0 := by
-  refine SemF_emit ?_
-  rw [classify_jne (jumpTarget_of_startsDot _ hs)]
-  exact FlowR_cond (localRef_of_startsDot hs) hm (by harith)
+    (hm : (l, v) ∈ A) (hv : v.rsp = -ro ∧ v.x87 = -xo) : SemF [] A ro xo (emit (ins1 "jne" (.s l))) [] 0 0 0 := by
+  refine SemF_emit ?_ ?_
+  · rw [classify_jne (jumpTarget_of_startsDot _ hs)]
+    exact FlowR_cond (localRef_of_startsDot hs) hm (by harith)
+  · rw [classify_jne (jumpTarget_of_startsDot _ hs)]
+    exact fun n => LabsR_noLabels rfl (Nat.le_refl n)
 
 /-- `jmp l`, `l` assumed at the current height; what follows is dead, so any effect may be claimed -/
 theorem SemF_jmp {A : List (String × H)} {ro xo : Int} {l : String} {v : H} {r x : Int} (hs : startsDot l = true)
-    (hm : (l, v) ∈ A) (hv : v.rsp = -ro ∧ v.x87 = -xo) : SemF A ro xo (emit (ins1 "jmp" (.s l))) [] r x 0 := by
-  refine SemF_emit ?_
-  rw [classify_jmp (jumpTarget_of_startsDot _ hs)]
-  exact FlowR_jump (localRef_of_startsDot hs) hm (by harith)
+    (hm : (l, v) ∈ A) (hv : v.rsp = -ro ∧ v.x87 = -xo) : SemF [] A ro xo (emit (ins1 "jmp" (.s l))) [] r x 0 := by
+  refine SemF_emit ?_ ?_
+  · rw [classify_jmp (jumpTarget_of_startsDot _ hs)]
+    exact FlowR_jump (localRef_of_startsDot hs) hm (by harith)
+  · rw [classify_jmp (jumpTarget_of_startsDot _ hs)]
+    exact fun n => LabsR_noLabels rfl (Nat.le_refl n)
 
-/-- `l:` is guaranteed at the current height -/
-theorem SemF_label {A : List (String × H)} {ro xo : Int} {l : String} (hs : startsDot l = true) :
-    SemF A ro xo (emit (.label l)) [(l, ⟨-ro, -xo⟩)] 0 0 0 := by
-  refine SemF_emit ?_
-  rw [classify_label]
-  exact FlowR_label (isNumLabel_of_startsDot hs) (by harith)
+/-- a counter label of the enclosing arm is guaranteed at the current height -/
+theorem SemF_label_ctr {A : List (String × H)} {ro xo : Int} {t : String} (ht : t ∈ ctrTags) (k : Nat) :
+    SemF [ctr t k] A ro xo (emit (.label (ctr t k))) [(ctr t k, ⟨-ro, -xo⟩)] 0 0 0 := by
+  refine SemF_emit ?_ ?_
+  · rw [classify_label]
+    exact FlowR_label (isNumLabel_of_startsDot (startsDot_ctr ht k)) (by harith)
+  · rw [classify_label]
+    exact fun n => LabsR_own ht k n
+
+/-- a parser label is guaranteed at the current height -/
+theorem SemF_label_user {A : List (String × H)} {ro xo : Int} {l : String} (hu : userLabel l = true) :
+    SemF [] A ro xo (emit (.label l)) [(l, ⟨-ro, -xo⟩)] 0 0 0 := by
+  refine SemF_emit ?_ ?_
+  · rw [classify_label]
+    exact FlowR_label (isNumLabel_of_startsDot (userLabel_elim hu).1) (by harith)
+  · rw [classify_label]
+    exact fun n => LabsR_user hu n
 
 end ChibiVerif.Lemmas.C20
